@@ -45,7 +45,7 @@ SetOp == \E id \in Pick({""} \cup DOMAIN st \cup {"nosuch"}), ms \in Pick(MSV \c
            /\ SetV(id, ms, s, e, c, via)
 ExpireOp == \E id \in Pick(DOMAIN st \cup {"nosuch"}) :
            (IF id \in DOMAIN st THEN st[id].upd # now ELSE TRUE) /\ Expire(id)
-MergeOp == \E B \in Pick(Batches) : Merge(B)
+MergeOp == \E B \in Pick(Batches), big \in Pick(BOOLEAN) : Merge(B, big)
 MutesOp == \E ls \in Pick(LS) : Mutes(ls)
 AlertGCOp == \E ls \in Pick(LS) : AlertGC({ls})
 
